@@ -22,6 +22,9 @@ pub enum InjectKind {
     Script,
     ForEachArrayError,
     ForEachNotACollection,
+    /// `item` is no legal location (ECMAScript: a reserved word); for rfsm-expression the same
+    /// name is an ordinary variable and the loop is a valid one
+    ForEachIllegalItem,
     SendEventExpr,
     SendTargetExpr,
     SendDelayExpr,
@@ -34,7 +37,10 @@ pub enum InjectKind {
     NestedForEachBody,
 }
 
-pub const INJECT_KINDS: [InjectKind; 16] = [
+/// `<foreach item>` that cannot be declared in ECMAScript
+pub const ILLEGAL_ITEM: &str = "continue";
+
+pub const INJECT_KINDS: [InjectKind; 17] = [
     InjectKind::IfCond,
     InjectKind::ElseIfCond,
     InjectKind::AssignExpr,
@@ -51,6 +57,7 @@ pub const INJECT_KINDS: [InjectKind; 16] = [
     InjectKind::NestedElseIf,
     InjectKind::NestedForEachBody,
     InjectKind::SendNamelist,
+    InjectKind::ForEachIllegalItem,
 ];
 
 pub struct Ctx<'a> {
@@ -162,6 +169,11 @@ fn gen_item(t: &mut Tape, ctx: &mut Ctx, depth: usize, states: &[String], inject
                 ctx.has_elseif_or_foreach = true;
                 let body = gen_exec_block(t, ctx, depth + 1, states, false);
                 C::ForEach { array: X::Int(5), item: "it".into(), index: Some("ix".into()), body }
+            }
+            InjectKind::ForEachIllegalItem => {
+                ctx.has_elseif_or_foreach = true;
+                let body = gen_exec_block(t, ctx, depth + 1, states, false);
+                C::ForEach { array: X::IntArr(vec![4, 2]), item: ILLEGAL_ITEM.into(), index: Some("ix".into()), body }
             }
             InjectKind::SendEventExpr => {
                 let mut s = valid_send(t);
